@@ -39,6 +39,13 @@ def _classify(info):
     return "values"
 
 
+def _evaluator(tpl):
+    if tpl.get("evaluator") == "time":
+        from vt.sqlsmt.timeeval import TimeEvaluator
+        return TimeEvaluator
+    return None
+
+
 def run_template(tpl):
     """Worker: returns a JSON-serialisable dict."""
     t0 = time.time()
@@ -50,7 +57,7 @@ def run_template(tpl):
         from vt.astb import render
         out["script"] = render(tpl["ast"])
         case = H.Case(tpl["id"], tpl["ast"], tpl["structs"], nrows=tpl.get("nrows", 2), scalars=tpl.get("scalars"),
-                      scalar_values=tpl.get("scalar_values"), opts=tpl.get("opts")).build()
+                      scalar_values=tpl.get("scalar_values"), opts=tpl.get("opts"), evaluator_cls=_evaluator(tpl)).build()
         out["sql"] = [q[1][:600] for q in case.pipe.queries]
         try:
             case.encode()
@@ -65,6 +72,9 @@ def run_template(tpl):
             out.update(status="not_encoded", reason="SQL: %s" % str(e)[:300])
             return out
         ref_cls = tpl.get("ref_cls") or REF.Ref
+        if tpl.get("evaluator") == "time":
+            from vt.spec.timeref import TimeRef
+            ref_cls = TimeRef
         try:
             ref = ref_cls(case.ctx, case.inputs, scalars=tpl.get("ref_scalars"))
             ores = ref.run(tpl["ast"])
